@@ -46,7 +46,9 @@ PROPS = {
     'C06': {'scans': [], 'trusted': [],
             'bounded': [{'name': 'control_history_search', 'recipe': 'control_histories', 'args': {'claims': ['C06']},
                          'functions': 'resume() interleaved with pause/play/kill inside one waiting step (history over the event loop)',
-                         'bound': 'three-step process; all sequences of up to 3 requests from {pause, play, kill, resume} inside the waiting step: 84 histories'},
+                         'bound': 'three-step process; all sequences of up to 3 requests from {pause(msg), pause(), play, kill, resume, cancel} inside the waiting step '
+                                  '(issued in one loop iteration, or with the event loop running between them), from a listener, and single requests on a '
+                                  'restored process: the histories of C04 that contain a resume'},
                         {'name': 'wakeup_search', 'recipe': 'context_barrier',
                          'functions': 'wake-up histories over the event loop (completion callbacks vs pause/play): outside per-function contracts',
                          'bound': '1..3 awaited futures, every completion order, 4 modes incl. completion while paused then play: 264 histories'}],
@@ -79,7 +81,7 @@ PROPS = {
     'C02': {'scans': [], 'trusted': [],
             'bounded': [{'name': 'control_history_search', 'recipe': 'control_histories', 'args': {'claims': ['C02']},
                          'functions': 'outcome reports of a process killed inside a step (deferred kill path through Process.step)',
-                         'bound': '407 control-request histories (see C04): the recorded kill text is the text given to kill()'}],
+                         'bound': 'the control-request histories of C04 (about 2600): the recorded kill text is the text given to kill()'}],
             'not_claimed': []},
     'C03': {'scans': [], 'trusted': [],
             'bounded': [{'name': 'failure_injection_search', 'recipe': 'failure_injection',
@@ -89,28 +91,32 @@ PROPS = {
                                   'after their super() call), a listener, 3 pause/play hooks (direct path) and 2 on the deferred path, 2 construction hooks: 40 runs'},
                         {'name': 'control_history_search', 'recipe': 'control_histories', 'args': {'claims': ['C03']},
                          'functions': 'nothing is reported to the event loop during control-request histories',
-                         'bound': '407 control-request histories (see C04)'}],
+                         'bound': 'the control-request histories of C04 (about 2600)'}],
             'not_claimed': []},
     'C04': {'scans': [], 'trusted': [],
             'bounded': [{'name': 'control_history_search', 'recipe': 'control_histories', 'args': {'claims': ['C04']},
                          'functions': 'histories of control requests over the event loop (Process.step / kill / pause / play / resume / '
                                       'interrupt actions interleaved): whole-history claims outside per-function contracts',
                          'bound': 'three-step process (async step awaiting a gate, Wait, Continue); all sequences of up to 3 requests from '
-                                  '{pause, play, kill, resume} at 5 points (created, paused at a boundary, inside the running step, inside the waiting step, from a listener while entering the '
-                                  'waiting state): about 1000 histories'}],
+                                  '{pause(msg), pause(), play, kill, resume, cancel of the process future} at 5 points (created, paused at a boundary, '
+                                  'inside the running step, inside the waiting step, from a listener while entering the waiting state), each also with '
+                                  'the event loop running between the requests, plus every single request on a process RESTORED from a CREATED / '
+                                  'WAITING checkpoint: about 2600 histories (thorough: up to 4 requests)'}],
             'not_claimed': []},
     'C05': {'scans': [], 'trusted': [],
             'bounded': [{'name': 'control_history_search', 'recipe': 'control_histories', 'args': {'claims': ['C05']},
                          'functions': 'histories of control requests over the event loop (Process.step / kill / pause / play / resume / '
                                       'interrupt actions interleaved): whole-history claims outside per-function contracts',
                          'bound': 'three-step process (async step awaiting a gate, Wait, Continue); all sequences of up to 3 requests from '
-                                  '{pause, play, kill, resume} at 5 points (created, paused at a boundary, inside the running step, inside the waiting step, from a listener while entering the '
-                                  'waiting state): about 1000 histories'}],
+                                  '{pause(msg), pause(), play, kill, resume, cancel of the process future} at 5 points (created, paused at a boundary, '
+                                  'inside the running step, inside the waiting step, from a listener while entering the waiting state), each also with '
+                                  'the event loop running between the requests, plus every single request on a process RESTORED from a CREATED / '
+                                  'WAITING checkpoint: about 2600 histories (thorough: up to 4 requests)'}],
             'not_claimed': []},
     'C01': {'scans': ['allowed_subset_graph', 'state_written_only_by_the_machine'], 'trusted': [],
             'bounded': [{'name': 'control_history_search', 'recipe': 'control_histories', 'args': {'claims': ['C01']},
                          'functions': 'Process.step over control-request histories (terminal states are final while the stepping task is parked)',
-                         'bound': '407 control-request histories (see C04): no step function runs and the state does not change after kill() returned True'}],
+                         'bound': 'the control-request histories of C04 (about 2600): no step function runs and the state does not change after kill() returned True'}],
             'not_claimed': []},
     'C14': {'scans': [], 'trusted': [],
             'bounded': [{'name': 'pickle_vs_memory_vs_map', 'recipe': 'persister_history',
